@@ -60,7 +60,10 @@ BlockEnd == /\ Is("BlockEnd") /\ inBlock /\ expect = 0 /\ sub = nsub /\ Ev.nsub 
 End == /\ Is("End") /\ ~inBlock /\ (C(tid).blocks < 0 \/ blk = C(tid).blocks)
        /\ l' = l + 1 /\ UNCHANGED <<tid, nsub, W0, start, first, blk, sub, expect, reqn, inBlock>>
 
-Next == Header \/ Request \/ Chan \/ ChanNoCache \/ BlockEnd \/ End
+(* quantiser events belong to QuantTrace.tla *)
+SkipQuant == /\ (Is("Quant") \/ Is("QReset")) /\ l' = l + 1 /\ UNCHANGED <<tid, nsub, W0, start, first, blk, sub, expect, reqn, inBlock>>
+
+Next == Header \/ Request \/ Chan \/ ChanNoCache \/ BlockEnd \/ End \/ SkipQuant
 Spec == Init /\ [][Next]_vars
 
 Progress == TLCSet(tid, IF TLCGet(tid) < l THEN l ELSE TLCGet(tid))
